@@ -150,9 +150,20 @@ func (c *HeartbeatManager) updateHeartbeatData(stopC chan struct{}, d time.Durat
 		case <-ticker.C:
 			verifYield("Heartbeat.fired")
 
+			c.mux.Lock()
+
+			// select picks randomly if the ticker and the stop channel are both ready,
+			// a stopped heartbeat must not update the data anymore
+			select {
+			case <-stopC:
+				c.mux.Unlock()
+				return
+			default:
+			}
+
+			// the counter has to be taken with the lock held, so a higher counter is never overwritten by a lower one
 			heartbeatData := c.heartbeatData(time.Now().UTC(), c.heartBeatCounter())
 
-			c.mux.Lock()
 			// updating the data will automatically notify all subscribed remote features
 			c.localFeature.SetData(model.FunctionTypeDeviceDiagnosisHeartbeatData, heartbeatData)
 			verifYield("Heartbeat.refreshed")
